@@ -583,7 +583,6 @@ Hypothesis W : DW d.
 Hypothesis He : e < length (d_hedges d).
 Hypothesis Ie : inner d e.
 Hypothesis It : inner d (rev e).
-Hypothesis Apex : e_origin d (e_prev d e) <> e_origin d (e_prev d (rev e)).
 Hypothesis Post : FlipPost d d' e.
 
 Notation nn := (length (d_hedges d)).
@@ -766,6 +765,9 @@ Proof.
     + rewrite (fp_adj_other d d' e Post f N1 N2) in Ha. apply (dw_adj_rng d W f Hf a Ha).
 Qed.
 
+(* only from here on: the two apexes are different vertices *)
+Hypothesis Apex : e_origin d (e_prev d e) <> e_origin d (e_prev d (rev e)).
+
 Lemma flip_links' : forall x, x < length (d_hedges d') ->
   e_prev d' (e_next d' x) = x /\ e_next d' (e_prev d' x) = x /\
   e_face d' (e_next d' x) = e_face d' x /\
@@ -938,6 +940,7 @@ Ltac len_simp :=
   | |- context [d_hedges (set_adjacent_edge ?d ?a ?x)] => rewrite (hedges_set_adjacent_edge d a x)
   end.
 Ltac he_side_len := len_simp; assumption.
+Ltac neq_side := solve [assumption | apply not_eq_sym; assumption].
 Ltac he_step :=
   match goal with
   | |- context [half_edge (set_out_edge ?d ?v ?o) ?b] => rewrite (half_edge_set_out_edge d v o b)
@@ -956,22 +959,23 @@ Ltac he_step :=
   | |- context [h_org (half_edge (set_face ?d ?a ?x) ?b)] => rewrite (horg_set_face d a x b)
   | |- context [h_next (half_edge (set_next ?d ?a ?x) ?b)] =>
       first [ constr_eq a b; rewrite (hnext_set_next_same d a x) by he_side_len
-            | rewrite (hnext_set_next_other d a x b) by lia ]
+            | rewrite (hnext_set_next_other d a x b) by neq_side ]
   | |- context [h_prev (half_edge (set_prev ?d ?a ?x) ?b)] =>
       first [ constr_eq a b; rewrite (hprev_set_prev_same d a x) by he_side_len
-            | rewrite (hprev_set_prev_other d a x b) by lia ]
+            | rewrite (hprev_set_prev_other d a x b) by neq_side ]
   | |- context [h_face (half_edge (set_face ?d ?a ?x) ?b)] =>
       first [ constr_eq a b; rewrite (hface_set_face_same d a x) by he_side_len
-            | rewrite (hface_set_face_other d a x b) by lia ]
+            | rewrite (hface_set_face_other d a x b) by neq_side ]
   | |- context [h_org (half_edge (set_origin ?d ?a ?x) ?b)] =>
       first [ constr_eq a b; rewrite (horg_set_origin_same d a x) by he_side_len
-            | rewrite (horg_set_origin_other d a x b) by lia ]
-  | |- context [half_edge (set_next ?d ?a ?x) ?b] => rewrite (half_edge_set_next_other d a x b) by lia
-  | |- context [half_edge (set_prev ?d ?a ?x) ?b] => rewrite (half_edge_set_prev_other d a x b) by lia
-  | |- context [half_edge (set_face ?d ?a ?x) ?b] => rewrite (half_edge_set_face_other d a x b) by lia
-  | |- context [half_edge (set_origin ?d ?a ?x) ?b] => rewrite (half_edge_set_origin_other d a x b) by lia
+            | rewrite (horg_set_origin_other d a x b) by neq_side ]
+  | |- context [half_edge (set_next ?d ?a ?x) ?b] => rewrite (half_edge_set_next_other d a x b) by neq_side
+  | |- context [half_edge (set_prev ?d ?a ?x) ?b] => rewrite (half_edge_set_prev_other d a x b) by neq_side
+  | |- context [half_edge (set_face ?d ?a ?x) ?b] => rewrite (half_edge_set_face_other d a x b) by neq_side
+  | |- context [half_edge (set_origin ?d ?a ?x) ?b] => rewrite (half_edge_set_origin_other d a x b) by neq_side
   end.
 Ltac he_simp := repeat he_step.
+Ltac he_fin := first [reflexivity | assumption | symmetry; assumption].
 
 Lemma flip_cw_post : forall d k, DW d -> k < Raw.num_undirected_edges d ->
   inner d (2 * k) -> inner d (rev (2 * k)) ->
@@ -1004,10 +1008,105 @@ Proof.
   remember (e_face d e) as fe eqn:Efe. remember (e_face d tw) as ft eqn:Eft.
   remember (e_origin d e) as oe eqn:Eoe. remember (e_origin d tw) as ot eqn:Eot.
   constructor.
+  all: rewrite <- ?Etw; rewrite <- ?Een, <- ?Eep, <- ?Etn, <- ?Etp; rewrite <- ?Efe, <- ?Eft, <- ?Eoe, <- ?Eot.
   - exact HG.
   - exact HL.
   - rewrite HV. rewrite !len_verts_set_out_edge. reflexivity.
   - rewrite HF. rewrite !len_faces_set_adjacent_edge. reflexivity.
-  - Time (rewrite Hd; apply hrec_ext4; he_simp).
-    all: match goal with |- ?G => idtac G end.
-Abort.
+  - rewrite Hd; apply hrec_ext4; he_simp; he_fin.
+  - rewrite Hd; apply hrec_ext4; he_simp; he_fin.
+  - rewrite Hd; apply hrec_ext4; he_simp; he_fin.
+  - rewrite Hd; apply hrec_ext4; he_simp; he_fin.
+  - rewrite Hd; apply hrec_ext4; he_simp; he_fin.
+  - rewrite Hd; apply hrec_ext4; he_simp; he_fin.
+  - intros x (U1 & U2 & U3 & U4 & U5 & U6).
+    rewrite <- ?Etw in *. rewrite <- ?Een, <- ?Eep, <- ?Etn, <- ?Etp in *.
+    rewrite Hd. he_simp. reflexivity.
+  - intros v. cbv zeta. rewrite HV.
+    destruct (vrec_set_out_edge_data (set_out_edge d oe (Some tn)) ot v (Some en)) as (X1 & X2 & X3).
+    destruct (vrec_set_out_edge_data d oe v (Some tn)) as (Y1 & Y2 & Y3).
+    rewrite X1, X2, X3. auto.
+  - rewrite (v_out_edge_ext _ _ _ HV).
+    rewrite vout_set_out_edge_other by (intro E; apply NO; congruence).
+    apply vout_set_out_edge_same. exact LOe.
+  - rewrite (v_out_edge_ext _ _ _ HV).
+    apply vout_set_out_edge_same. rewrite len_verts_set_out_edge. exact LOt.
+  - intros v N1 N2. rewrite (v_out_edge_ext _ _ _ HV).
+    rewrite !vout_set_out_edge_other by congruence. reflexivity.
+  - rewrite (f_adjacent_ext _ _ _ HF).
+    rewrite fadj_set_adjacent_edge_other by congruence.
+    apply fadj_set_adjacent_edge_same. exact LFe.
+  - rewrite (f_adjacent_ext _ _ _ HF).
+    apply fadj_set_adjacent_edge_same. rewrite len_faces_set_adjacent_edge. exact LFt.
+  - intros f N1 N2. rewrite (f_adjacent_ext _ _ _ HF).
+    rewrite !fadj_set_adjacent_edge_other by congruence. reflexivity.
+Qed.
+
+(* ------------------------------------------------------------------------------------------------ *)
+(* Main theorem.  Compared with the requested statement there is ONE extra precondition: the two     *)
+(* apexes (the end points of the flipped edge) are different vertices.  Without it the statement is  *)
+(* false: see flip_cw_wf_counterexample.                                                             *)
+(* ------------------------------------------------------------------------------------------------ *)
+Theorem flip_cw_wf_partial : forall d e, DWf d -> e < Raw.num_undirected_edges d ->
+  inner d (2 * e) -> inner d (2 * e + 1) ->
+  e_origin d (e_prev d (2 * e)) <> e_origin d (e_prev d (2 * e + 1)) ->
+  let d' := fst (DcelOps.flip_cw d e) in
+     DWf d'
+  /\ Raw.num_vertices d' = Raw.num_vertices d /\ Raw.num_undirected_edges d' = Raw.num_undirected_edges d
+  /\ Raw.num_faces d' = Raw.num_faces d /\ length (d_hedges d') = length (d_hedges d)
+  /\ d_flags d' = d_flags d
+  /\ (forall v, v < Raw.num_vertices d -> let a := nth v (d_verts d') dflt_v in let b := nth v (d_verts d) dflt_v in
+                v_x a = v_x b /\ v_y a = v_y b /\ v_data a = v_data b)
+  /\ (forall x, x < length (d_hedges d) -> (e_face d' x = 0 <-> e_face d x = 0))
+  /\ e_origin d' (2 * e) = e_origin d (e_prev d (2 * e)) /\ e_origin d' (2 * e + 1) = e_origin d (e_prev d (2 * e + 1)).
+Proof.
+  intros d k Wf Hk Ie It Apex d'.
+  apply DWf_DW in Wf. rename Wf into W.
+  rewrite <- (rev_even k) in It, Apex |- *.
+  destruct (dw_double_lt d W k Hk) as (He & _).
+  pose proof (flip_cw_post d k W Hk Ie It) as Post. fold d' in Post.
+  split; [|split; [|split; [|split; [|split; [|split; [|split; [|split; [|split]]]]]]]].
+  - apply DWf_DW. apply (flip_DW' d d' (2 * k)); assumption.
+  - unfold Raw.num_vertices. apply (fp_lenV d d' _ Post).
+  - unfold Raw.num_undirected_edges. rewrite (fp_flags d d' _ Post). reflexivity.
+  - unfold Raw.num_faces. apply (fp_lenF d d' _ Post).
+  - apply (fp_lenH d d' _ Post).
+  - apply (fp_flags d d' _ Post).
+  - intros v _. apply (fp_vdata d d' _ Post v).
+  - intros x _. apply (flip_face0 d d' (2 * k)); assumption.
+  - apply (flip_O_e d d' (2 * k)); assumption.
+  - apply (flip_O_tw d d' (2 * k)); assumption.
+Qed.
+
+(* The requested statement (without the apex precondition) is false: a "pillow" of two triangles glued
+   along all three edges (so both apexes are vertex 2), next to a separate two-vertex component that
+   carries the outer face.  All link-level clauses hold; flipping edge 0 makes it a loop 2 -> 2. *)
+Definition flip_cex : dcel := mkdcel
+  [mkv 0 0 0 (Some 0); mkv 0 0 0 (Some 1); mkv 0 0 0 (Some 4); mkv 0 0 0 (Some 6); mkv 0 0 0 (Some 7)]
+  [mkh 2 4 1 0; mkh 5 3 2 1; mkh 4 0 1 1; mkh 1 5 2 2; mkh 0 2 1 2; mkh 3 1 2 0; mkh 7 7 0 3; mkh 6 6 0 4]
+  [Some 6; Some 0; Some 1]
+  [false; false; false; false].
+
+Definition wfcore_b (s : obs) : bool :=
+  wf_counts s && wf_ranges s && wf_links s && wf_face_ptrs s && wf_vertex_ptrs s && wf_triangles s.
+Lemma wfcore_b_spec : forall s, wfcore_b s = true <-> WfCore s.
+Proof.
+  intros s. unfold wfcore_b, WfCore.
+  rewrite !andb_true_iff, wf_counts_spec, wf_ranges_spec, wf_links_spec, wf_face_ptrs_spec,
+    wf_vertex_ptrs_spec, wf_triangles_spec. tauto.
+Qed.
+
+Theorem flip_cw_wf_counterexample :
+  exists d e, DWf d /\ e < Raw.num_undirected_edges d /\ inner d (2 * e) /\ inner d (2 * e + 1) /\
+              ~ DWf (fst (DcelOps.flip_cw d e)).
+Proof.
+  exists flip_cex, 0. split; [|split; [|split; [|split]]].
+  - apply wfcore_b_spec. vm_compute. reflexivity.
+  - vm_compute. lia.
+  - vm_compute. discriminate.
+  - vm_compute. discriminate.
+  - intro H. apply wfcore_b_spec in H. vm_compute in H. discriminate.
+Qed.
+
+Print Assumptions flip_cw_wf_partial.
+Print Assumptions flip_cw_wf_counterexample.
